@@ -201,4 +201,28 @@ example : (Morphism.apply (build T0 prog) (failAt 3 "boom") (0, [])).2 = some "b
 
 example : (events 0 (build T0 prog)).length ≤ 18 := by decide
 
+/-- counting consequence of the stack discipline: a callback sequence the stack checker accepts from a stack of `n`
+pending nodes contains `n` more leave than enter callbacks -/
+theorem bracketed_counts : ∀ (es stk : List Event), Bracketed stk es →
+    (es.filter (·.cb.isEnter)).length + stk.length = (es.filter (fun e => !e.cb.isEnter)).length
+  | [], stk, h => by simp [Bracketed] at h; simp [h]
+  | e :: es, stk, h => by
+    unfold Bracketed at h
+    by_cases he : e.cb.isEnter = true
+    · rw [if_pos he] at h
+      have := bracketed_counts es (e :: stk) h
+      simp [he] at this ⊢; omega
+    · rw [if_neg he] at h
+      cases stk with
+      | nil => exact absurd h (by simp)
+      | cons t stk' =>
+        have := bracketed_counts es stk' h.2
+        simp [he] at this ⊢; omega
+
+/-- a complete visit of any tree makes as many leave callbacks as enter callbacks -/
+theorem enters_eq_leaves (code : Ast) (d : Nat) :
+    ((events d code).filter (·.cb.isEnter)).length = ((events d code).filter (fun e => !e.cb.isEnter)).length := by
+  have := bracketed_counts (events d code) [] (trace_well_bracketed code d)
+  simpa using this
+
 end Golem.Props.C16
